@@ -41,8 +41,33 @@ def nonvacuous(ctx, module, devs, cfgfn):
             raise vlib.ToolError("deviation %s does not violate %s in the model (got %s): vacuous invariant" % (dev, inv, r["violated"]))
 
 
+def registry_replay(ctx):
+    """The indexes themselves (util.TypeAssociationRegistry / util.TypesMap): every history of <= 3 (quick) / 4 (thorough) Add calls
+    of Registry.tla, with the answers the specification gives, replayed through the real structures."""
+    import json
+    import subprocess
+    rcfg = ("SPECIFICATION Spec\nCONSTANTS\n  MaxOps = %d\n  Emit = %s\n  Deviations = %s\nINVARIANTS Agree EmitInv\nPROPERTIES Independent\n"
+            "CHECK_DEADLOCK FALSE\n")
+    r = ctx.tlc("Registry", rcfg % (2, "FALSE", '{"PkgBlind"}'), label="registry_dev", allow_violation=True, count=False, collect_emit=False)
+    if r["violated"] is None:
+        raise vlib.ToolError("deviation PkgBlind violates nothing in Registry: vacuous")
+    ar = ctx.tlc("Registry", rcfg % (4 if ctx.tier == "thorough" else 3, "TRUE", "{}"), label="registry", collect_emit=False, timeout=2400)
+    with open(ar["out"]) as f:
+        pr = subprocess.run([ctx.vh(), "registry-replay"], stdin=f, stdout=subprocess.PIPE, stderr=subprocess.PIPE, text=True)
+    if pr.returncode not in (0, 1):
+        raise vlib.ToolError("registry-replay failed: " + (pr.stderr or pr.stdout)[-800:])
+    res = json.loads(pr.stdout)
+    if res["histories"] != ar["distinct"]:
+        raise vlib.ToolError("replayed %d histories, TLC found %d states" % (res["histories"], ar["distinct"]))
+    for mm in (res["mismatches"] or [])[:2]:
+        if len(ctx.violations) < 3:
+            ctx.violation("annotation index (TypeAssociationRegistry / TypesMap) after %s: %s = %s, the specification says %s"
+                          % (mm["history"], mm["query"], mm["observed"], mm["expected"]), {"kind": "registry", "scenario": mm})
+    return res
+
+
 def run_family(ctx, module, build, cats, cfgfn, modes_quick, modes_thorough, devs, assumptions, rule, describe=None, cfgs=(None,),
-               cov_mode="seq2"):
+               cov_mode="seq2", registry=False):
     if ctx.replay:
         return progcheck.replay_file(ctx, ctx.replay)
     thorough = ctx.tier == "thorough"
@@ -67,11 +92,13 @@ def run_family(ctx, module, build, cats, cfgfn, modes_quick, modes_thorough, dev
         if zero:
             raise vlib.ToolError("vacuous actions in %s: %s" % (lab, zero))
     rep.settle(describe=describe or _describe)
+    reg = registry_replay(ctx) if registry else None
     nreal = 0
     if not ctx.violations:
         for c in cfgs:
             nreal += progcheck.real_drivers(ctx, real_items, cats, rep, cfg=c)
     return ctx.finish("model_checking", {
+        **({"index_histories_replayed": reg["histories"], "index_queries": reg["queries"]} if reg else {}),
         "traces_validated_against_impl": rep.run + nreal,
         "samples": rep.samples,
         "evaluations": rep.run + nreal,
